@@ -9,7 +9,8 @@ import Jrpc.Base
   request arrived on (it need not look at its context).  The code keeps a counter `connEpoch`, changed under
   the write lock when the connection is replaced; `handleCall` remembers the epoch of the request, the
   response writer discards the response when the epoch has changed, and a returning handler removes the
-  `handling` entry of its id only when the epoch has not changed.
+  `handling` entry of its id only when the epoch has not changed.  The epoch of a request is the one it
+  was *read* in: it travels with the frame through the executor's queue (`reqLate`, repair F18b).
 
   `guard = true` is that code; `guard = false` is the code before the repair (F18), kept so that the
   failure is a theorem about the model too (`JrpcProofs.Props.Epoch`).
@@ -40,6 +41,7 @@ inductive Ev where
   | answer (h : Nat)     -- invocation h calls its response writer
   | done (h : Nat)       -- invocation h returns (`done(false)`)
   | cancel (id : Nat)    -- `xrpc.cancel` for this id arrives on the current connection
+  | reqLate (id k : Nat) -- a request read in epoch `k`, still queued when its connection ended, is executed now
   deriving Repr, DecidableEq, Inhabited
 
 def find? (l : List Handler) (h : Nat) : Option Handler := l.find? (·.hid == h)
@@ -80,6 +82,21 @@ def step? (guard : Bool) (s : St) : Ev → Option St
     else match lookup s.handling id with
       | some h => some { s with cancelled := h :: s.cancelled }
       | none => some s
+  | .reqLate id k =>
+    -- frames wait in a queue between being read and being executed; the epoch travels with the frame
+    -- (repair F18b).  A request that is stale when it is executed — its connection is being, or has been,
+    -- replaced — runs with a cancelled context and is not registered for cancellation.
+    if k < s.epoch || (k = s.epoch && s.down) then
+      let h : Handler := { hid := s.next, id := id, epoch := k }
+      if guard then
+        some { s with next := s.next + 1, all := h :: s.all, running := h :: s.running,
+                      cancelled := s.next :: s.cancelled }
+      else
+        -- before the repair the request took the epoch current at execution and was registered like any other
+        let h' : Handler := { hid := s.next, id := id, epoch := s.epoch }
+        some { s with next := s.next + 1, all := h' :: s.all, running := h' :: s.running,
+                      handling := (id, s.next) :: s.handling.filter (·.1 != id) }
+    else none
 
 def run? (guard : Bool) (s : St) : List Ev → Option St
   | [] => some s
